@@ -365,7 +365,7 @@ type BlacklistCase struct {
 func genBlacklist(t *rapid.T) BlacklistCase {
 	c := BlacklistCase{Blocked: rapid.IntRange(2, 250).Draw(t, "blocked"), Target: rapid.IntRange(0, 3).Draw(t, "target"), Probes: rapid.IntRange(1, 4).Draw(t, "probes")}
 	// the expiry leg needs real time (about 4.5 s): a third of the cases in thorough, about one per shard in quick
-	waitOneIn := 30
+	waitOneIn := 45
 	if pbt.Thorough() {
 		waitOneIn = 3
 	}
@@ -718,6 +718,6 @@ func classifyBlHist(c BlHistCase) (bool, []string) {
 func TestIpBlacklistHistory(t *testing.T) {
 	pbt.Run(t, pbt.Spec[BlHistCase]{
 		ID: "C14", Name: "ip-blacklist-history", Gen: genBlHist, Run: runBlHist, Classify: classifyBlHist,
-		Quick: 3, Thorough: 30,
+		Quick: 2, Thorough: 30,
 	})
 }
